@@ -23,7 +23,7 @@ ATOMS0 = ['int', 'bool', 'str', 'float', 'bytes', 'none', 'object', 'any', 'K', 
           'G', 'GL', 'complex', 'NoneType', 'IE', 'NL', 'TL', 'TU', 'DupA', 'DupB', 'TSi', 'TSs']
 # hint kinds beartype reduces to shallower checks (C01 / C02 / C03 / C09 / C10 only; not part of the is_subhint matrix of C19)
 ATOMS_EXTRA = ['Hashable', 'Sized', 'Callable_', 'LStr', 'SupportsInt', 'AnyStr', 'PatS', 'MatS', 'TD', 'TDo', 'NT', 'DC', 'GenI', 'CtxI', 'PathS',
-               'AL', 'ALgi', 'ALr', 'Type_', 'Tuple_', 'List_', 'Dict_', 'TupU', 'TupUU', 'InitI', 'FinI']
+               'AL', 'ALgi', 'ALr', 'Type_', 'Tuple_', 'List_', 'Dict_', 'TupU', 'TupUU', 'InitI', 'FinI', 'GRegI', 'GOutI']
 LITS0 = [('lit', '1'), ('lit', "'a'"), ('lit', 'True'), ('lit', 'None'), ('lit', 'E.A'), ('lit', '1', "'a'", 'None'),
          ('lit', '1', 'True'), ('lit', "b'x'", '0'),
          # every order of equal-valued members of different types (bool/int/IntEnum), and plain reorderings
@@ -251,24 +251,34 @@ def hints(tier: str):
 
 
 def shards(hints, n):
-    """Split into n shards such that hints which are *equal as Python objects* (Literal[1, True] == Literal[True, 1],
-    Union reorderings, typing/builtin spellings that compare equal) never share a shard: beartype memoises per hint
-    equality, so in one process only the first of an equality class is ever compiled.  Each shard must run in a fresh
-    process (Ctx.pmap(fresh=True))."""
+    """Split into n shards such that
+    (a) hints which are *equal as Python objects* (Literal[1, True] == Literal[True, 1], Union reorderings, typing/builtin
+        spellings that compare equal) never share a shard: beartype memoises per hint equality, so in one process only
+        the first of an equality class is ever compiled;
+    (b) hints which are *unequal but print the same* (two classes / TypeVars with one name, containers over them) do share
+        a shard, one right after the other: anything keyed on repr() instead of the hint then collides in that process.
+    Each shard must run in a fresh process (Ctx.pmap(fresh=True))."""
     out = [[] for _ in range(n)]
-    groups = {}
+    held = [set() for _ in range(n)]            # equality keys already in each shard
+    first_of_repr = {}
     for idx, t in enumerate(hints):
         try:
-            h = HS.build(t)
+            h = build(t) if False else HS.build(t)
             hash(h)
+            eq = h
         except Exception:
-            h = ('unhashable', idx)
-        g = groups.setdefault(h, [])
-        g.append(idx)
-    for gi, (h, idxs) in enumerate(groups.items()):
-        base = idxs[0]
-        for j, idx in enumerate(idxs):
-            out[(base + j) % n].append(hints[idx])
+            h, eq = None, ('unhashable', idx)
+        try:
+            r = repr(h) if h is not None else ('unrepr', idx)
+        except Exception:
+            r = ('unrepr', idx)
+        k = first_of_repr.setdefault(r, idx) % n
+        for _ in range(n):
+            if eq not in held[k]:
+                break
+            k = (k + 1) % n
+        held[k].add(eq)
+        out[k].append(t)
     return out
 
 
